@@ -188,6 +188,10 @@ func (rl *Shell) run(main bool, bind inputrc.Bind, command func()) (bool, string
 	// return the correct input line and cursor.
 	rl.line, rl.cursor, rl.selection = rl.completer.GetBuffer()
 
+	// The command might have closed a minibuffer (incremental search):
+	// the cursor checked in execute() was then not the input line one.
+	rl.checkCursor()
+
 	// History: save the last action to the line history,
 	// and return with the call to the history system that
 	// checks if the line has been accepted (entered), in
@@ -212,6 +216,11 @@ func (rl *Shell) execute(command func()) {
 	}
 
 	// Update/check cursor positions after run.
+	rl.checkCursor()
+}
+
+// checkCursor ensures the cursor position is valid for the current keymap.
+func (rl *Shell) checkCursor() {
 	switch rl.Keymap.Main() {
 	case keymap.ViCommand, keymap.ViMove, keymap.Vi:
 		rl.cursor.CheckCommand()
@@ -254,5 +263,9 @@ func (rl *Shell) handleUndefined(bind inputrc.Bind, cmd func()) {
 	if rl.Keymap.Local() == keymap.Isearch {
 		rl.Hint.Reset()
 		rl.completer.Reset()
+
+		// Back on the input line: its cursor must be valid for the keymap.
+		rl.line, rl.cursor, rl.selection = rl.completer.GetBuffer()
+		rl.checkCursor()
 	}
 }
